@@ -338,9 +338,11 @@ FEAT_OPS = ['R0', 'R1', 'R2', 'P', 'D']
 
 
 def feat_fresh(f):
-    from DocumentTemplate import HTML
+    import DocumentTemplate
     from ..features import FEATURES
-    return HTML(FEATURES[f][1])
+    opts = dict(FEATURES[f][3]) if len(FEATURES[f]) > 3 else {}
+    cls = getattr(DocumentTemplate, opts.pop('cls', 'HTML'))
+    return cls(FEATURES[f][1], **opts)
 
 
 def feat_alone(f, i):
